@@ -46,9 +46,11 @@ const (
 	oEF // error, with boolean false
 )
 
-func (o outcome) String() string { return [...]string{"true", "false", "error(+true)", "error(+false)"}[o] }
-func (o outcome) isErr() bool    { return o == oET || o == oEF }
-func (o outcome) boolVal() bool  { return o == oT || o == oET }
+func (o outcome) String() string {
+	return [...]string{"true", "false", "error(+true)", "error(+false)"}[o]
+}
+func (o outcome) isErr() bool   { return o == oET || o == oEF }
+func (o outcome) boolVal() bool { return o == oT || o == oET }
 
 // exprFields: names of the fields of struct T (in package grammar) whose type is the Expression interface.
 func exprFields(t *types.Named) []string {
